@@ -67,6 +67,32 @@ impl PackedJoinKeys {
         out
     }
 
+    /// Bounds of one join key, read off the statistics of the column it really
+    /// is. Footer statistics describe BASE columns of ONE table:
+    /// * a key an input computes (`SELECT a, b + 4 AS b`) merely re-uses a base
+    ///   column's name — no proof, no pack (packing it with the base column's
+    ///   modulus returned 36 join matches where the answer is 0);
+    /// * a key that is passed through from a scan is bounded by THAT table's
+    ///   statistics only — another table that happens to have a column of the
+    ///   same name says nothing about it (it did when this table's files
+    ///   carried no statistics);
+    /// * references that cannot be followed (schema-less plans) keep the
+    ///   by-name lookup.
+    fn key_bounds(&self, side: &LogicalPlan, col: &crate::planner::Column) -> Option<(i64, i64)> {
+        match column_origin(side, col) {
+            ColumnOrigin::Computed => None,
+            ColumnOrigin::Base(table, name) => {
+                let cs = self
+                    .table_stats
+                    .get(&table)?
+                    .column_stats
+                    .get(&name.to_lowercase())?;
+                Some((cs.min_i64?, cs.max_i64?))
+            }
+            ColumnOrigin::Unknown => self.column_bounds(&col.name),
+        }
+    }
+
     fn as_int_column(e: &Expr) -> Option<&crate::planner::Column> {
         match e {
             Expr::Column(c) => Some(c),
@@ -105,9 +131,14 @@ impl PackedJoinKeys {
             Self::as_int_column(l2)?,
             Self::as_int_column(r2)?,
         ];
+        // cols = [l1, r1, l2, r2]: even positions come from the left input.
         let bounds: Vec<(i64, i64)> = cols
             .iter()
-            .map(|c| self.column_bounds(&c.name))
+            .enumerate()
+            .map(|(i, c)| {
+                let side = if i % 2 == 0 { &node.left } else { &node.right };
+                self.key_bounds(side, c)
+            })
             .collect::<Option<Vec<_>>>()?;
         // Non-negative firsts and seconds on both sides.
         if bounds.iter().any(|(lo, _)| *lo < 0) {
@@ -146,6 +177,99 @@ impl PackedJoinKeys {
             }
         }
         Ok(rebuilt)
+    }
+}
+
+/// Where the values of a plain column reference come from.
+pub(crate) enum ColumnOrigin {
+    /// passed through unchanged from this base table's column
+    Base(String, String),
+    /// produced by an expression, an aggregate / window function or a set operation
+    Computed,
+    /// the reference could not be followed
+    Unknown,
+}
+
+/// Follow a plain column reference down to the scan it comes from.
+pub(crate) fn column_origin(plan: &LogicalPlan, col: &crate::planner::Column) -> ColumnOrigin {
+    match plan {
+        LogicalPlan::Scan(s) => match s.schema.resolve_column(col) {
+            Some((_, f)) => ColumnOrigin::Base(s.table_name.clone(), f.name.clone()),
+            None => ColumnOrigin::Unknown,
+        },
+        LogicalPlan::Filter(n) => column_origin(&n.input, col),
+        LogicalPlan::Sort(n) => column_origin(&n.input, col),
+        LogicalPlan::Limit(n) => column_origin(&n.input, col),
+        LogicalPlan::Distinct(n) => column_origin(&n.input, col),
+        LogicalPlan::SubqueryAlias(n) => {
+            // The alias re-qualifies its input's columns position by position.
+            let Some((idx, _)) = n.schema.resolve_column(col) else {
+                return ColumnOrigin::Unknown;
+            };
+            let inner = n.input.schema();
+            match inner.field(idx) {
+                Some(f) => column_origin(
+                    &n.input,
+                    &crate::planner::Column {
+                        relation: f.relation.clone(),
+                        name: f.name.clone(),
+                    },
+                ),
+                None => ColumnOrigin::Unknown,
+            }
+        }
+        LogicalPlan::Project(n) => {
+            let Some((idx, _)) = n.schema.resolve_column(col) else {
+                return ColumnOrigin::Unknown;
+            };
+            let Some(mut e) = n.exprs.get(idx) else {
+                return ColumnOrigin::Unknown;
+            };
+            while let Expr::Alias { expr, .. } = e {
+                e = expr;
+            }
+            match e {
+                Expr::Column(c) => column_origin(&n.input, c),
+                _ => ColumnOrigin::Computed,
+            }
+        }
+        LogicalPlan::Aggregate(n) => {
+            let Some((idx, _)) = n.schema.resolve_column(col) else {
+                return ColumnOrigin::Unknown;
+            };
+            match n.group_by.get(idx) {
+                Some(mut e) => {
+                    while let Expr::Alias { expr, .. } = e {
+                        e = expr;
+                    }
+                    match e {
+                        Expr::Column(c) => column_origin(&n.input, c),
+                        _ => ColumnOrigin::Computed,
+                    }
+                }
+                None => ColumnOrigin::Computed, // an aggregate output
+            }
+        }
+        LogicalPlan::Window(n) => match n.schema.resolve_column(col) {
+            Some((idx, _)) if idx >= n.input.schema().len() => ColumnOrigin::Computed,
+            Some(_) => column_origin(&n.input, col),
+            None => ColumnOrigin::Unknown,
+        },
+        LogicalPlan::Union(n) => match n.schema.resolve_column(col) {
+            Some(_) => ColumnOrigin::Computed,
+            None => ColumnOrigin::Unknown,
+        },
+        LogicalPlan::Join(n) => {
+            let in_left = n.left.schema().resolve_column(col).is_some();
+            let in_right = !matches!(n.join_type, JoinType::Semi | JoinType::Anti)
+                && n.right.schema().resolve_column(col).is_some();
+            match (in_left, in_right) {
+                (true, false) => column_origin(&n.left, col),
+                (false, true) => column_origin(&n.right, col),
+                _ => ColumnOrigin::Unknown,
+            }
+        }
+        _ => ColumnOrigin::Unknown,
     }
 }
 
